@@ -263,10 +263,37 @@ func genDedup(g *gen, repo string) {
 	// top-level check / handle / store statements.
 	locked := false
 	lockPos, deferPos, firstUse := -1, -1, -1
+	tryShape := false // `l, ok := cc.msgIDMutex.TryLock(reqMid)`; `if !ok { cc.receivedMessageReader.TryToReplaceLoop(); l = cc.msgIDMutex.Lock(reqMid) }`
+	handsOver := false
 	for i, st := range hr.Body.List {
 		if as, ok := st.(*ast.AssignStmt); ok && len(as.Rhs) == 1 {
 			if c, ok := as.Rhs[0].(*ast.CallExpr); ok && drDotted(c.Fun) == "cc.msgIDMutex.Lock" && len(c.Args) == 1 && identName(c.Args[0]) == "reqMid" && lockPos < 0 {
 				lockPos = i
+			}
+			if c, ok := as.Rhs[0].(*ast.CallExpr); ok && drDotted(c.Fun) == "cc.msgIDMutex.TryLock" && len(c.Args) == 1 && identName(c.Args[0]) == "reqMid" && lockPos < 0 &&
+				len(as.Lhs) == 2 && identName(as.Lhs[0]) == "l" && i+1 < len(hr.Body.List) {
+				// the fallback: wait for the lock (after handing the reader loop over), no other exit
+				if is, isIf := hr.Body.List[i+1].(*ast.IfStmt); isIf && is.Else == nil && exprStr(is.Cond) == "!"+identName(as.Lhs[1]) && len(is.Body.List) >= 1 {
+					last, isAs := is.Body.List[len(is.Body.List)-1].(*ast.AssignStmt)
+					exits := false
+					ast.Inspect(is.Body, func(x ast.Node) bool {
+						if _, r := x.(*ast.ReturnStmt); r {
+							exits = true
+						}
+						return true
+					})
+					if isAs && !exits && len(last.Lhs) == 1 && identName(last.Lhs[0]) == "l" && len(last.Rhs) == 1 {
+						if lc, isCall := last.Rhs[0].(*ast.CallExpr); isCall && drDotted(lc.Fun) == "cc.msgIDMutex.Lock" && len(lc.Args) == 1 && identName(lc.Args[0]) == "reqMid" {
+							lockPos = i + 1 // the lock is held from the end of this statement on, whichever branch was taken
+							tryShape = true
+							for _, bs := range is.Body.List[:len(is.Body.List)-1] {
+								if len(drCallsIn(bs, "cc.receivedMessageReader.TryToReplaceLoop")) > 0 {
+									handsOver = true
+								}
+							}
+						}
+					}
+				}
 			}
 		}
 		if d, ok := st.(*ast.DeferStmt); ok && drDotted(d.Call.Fun) == "l.Unlock" && deferPos < 0 {
@@ -277,6 +304,7 @@ func genDedup(g *gen, repo string) {
 			firstUse = i
 		}
 	}
+	_ = tryShape
 	reqMidOK := false
 	for _, st := range hr.Body.List {
 		if as, ok := st.(*ast.AssignStmt); ok && len(as.Lhs) == 1 && identName(as.Lhs[0]) == "reqMid" && len(as.Rhs) == 1 && drDotted(as.Rhs[0]) == "req.MessageID()" {
@@ -340,6 +368,7 @@ func genDedup(g *gen, repo string) {
 	fmt.Fprintf(&b, "/-- processResponse/addResponseToCache store the reply under the request's message ID (false: under the reply's own MID) (AST) -/\ndef storeKeyIsRequestMID : Bool := %s\n", drLeanBool(storeReq))
 	fmt.Fprintf(&b, "/-- processResponse caches an empty (code 0.00) or reset reply like any other reply (AST) -/\ndef emptyReplyCached : Bool := %s\n", drLeanBool(emptyCached))
 	fmt.Fprintf(&b, "/-- handleReq takes msgIDMutex.Lock(req.MessageID()) with a deferred Unlock before check/handle/store (AST) -/\ndef handleReqLockedPerMID : Bool := %s\n", drLeanBool(locked))
+	fmt.Fprintf(&b, "/-- handleReq does not wait for the per-message-ID lock with the reader loop in its hand: it tries the lock first and, when a copy of a request that is still being handled finds it taken, asks for a replacement loop (TryToReplaceLoop) before it waits (AST; false: plain Lock) -/\ndef copyWaitsAfterHandover : Bool := %s\n", drLeanBool(tryShape && handsOver))
 	fmt.Fprintf(&b, "/-- checkMyMessageID: applies to confirmable messages only; distance guard and jump; NewConnWithOpts initial offset (AST) -/\ndef midGuard : Nat := %d\ndef midJump : Nat := %d\ndef midInitOffset : Nat := %d\n", guard, jump, initOff)
 	// servers: which cache do the connections they create get, and in which order does the datagram server look a peer up
 	_, fd := parseFile(repo, "dtls/server/server.go")
